@@ -122,6 +122,12 @@ func (h *Handler) handleRequest(host *packet.Host, p packet.DHCP4, options packe
 
 	lease := h.findOrCreate(clientID, p.CHAddr(), nameEntry.Name)
 
+	// a lease that has run out is not a lease any more, whether or not the minute ticker has got to it yet
+	if lease.State == StateAllocated && lease.DHCPExpiry.Before(time.Now()) {
+		lease.State = StateFree
+		h.saveConfig(h.filename)
+	}
+
 	// Main switch
 	switch operation {
 	case selecting:
